@@ -215,6 +215,86 @@ def run(F, R, tier):
     dc = [n for n in tf["_nodes"] if n.get("k") == "MethodCall" and n["name"] == "clear" and field_of(n["recv"]) == "decorators"]
     R.ob("C10-e", "function and parameter decorators are removed", len(dc) == 2, "transform_fn clears decorators at %d site(s)" % len(dc), tf["file"])
 
+    # every place that strips decorators does so on every non-error path of the
+    # code that owns it (innermost enclosing match arm, else loop body, else function)
+    n_dc = 0
+    for b in F.bodies:
+        if b.get("derived") or not b["path"].startswith(T):
+            continue
+        for n in b["_nodes"]:
+            if not (n.get("k") == "MethodCall" and n["name"] == "clear" and field_of(n["recv"]) == "decorators"):
+                continue
+            n_dc += 1
+            scope = b["body"]["value"]
+            for a in k_ancestors(n):
+                if a.get("k") == "Match":
+                    hit = [arm["body"] for arm in a["arms"] if is_within(n, arm["body"])]
+                    if hit:
+                        scope = hit[0]
+                        break
+                if a.get("k") in ("For", "While", "Loop"):
+                    scope = a["body"]
+                    break
+                if a.get("k") == "Closure":
+                    scope = a["body"]["value"]
+                    break
+            base = peel_value(peel_value(n["recv"]).get("e", {})).get("lid")
+            group = [m for m in walk(scope) if m.get("k") == "MethodCall" and m["name"] == "clear" and field_of(m["recv"]) == "decorators" and peel_value(peel_value(m["recv"]).get("e", {})).get("lid") == base]
+            g0 = {id(x.orig) for x in guards_at(F, n, stop_at=scope) if x.kind == "cond"}
+            bad, _ = must_pass(F, scope, lambda x, group=group: any(x is m for m in group), exit_kinds=("fallthrough", "return", "continue", "break"))
+            bad = [(kd, nd) for kd, nd in bad if not (kd == "return" and ctor_of(peel(nd.get("e", {}))) == "std::result::Result::Err")]
+            # declarations described by a context flag of the function (ambient declaration, overload
+            # signature) cannot carry decorators in TypeScript: an early exit under such a flag is fine
+            flag_lids = {p_.get("lid") for p_ in b["body"]["params"] if p_.get("lid") is not None and tyc(F, p_, "bool")}
+            bad = [(kd, nd) for kd, nd in bad if not any(x.kind == "cond" and x.pol and peel(x.node).get("lid") in flag_lids for x in guards_at(F, nd, stop_at=scope, expand=False))]
+            # paths that leave before the clear are fine only if the clear itself is conditional on the same test
+            # (e.g. private members are rebuilt from scratch without decorators)
+            if bad and g0:
+                bad = [(kd, nd) for kd, nd in bad if not any(id(x.orig) in g0 for x in guards_at(F, nd, stop_at=scope) if x.kind == "cond")]
+            R.ob("C10-e", "decorators of `%s` in %s are stripped on every path" % (expr_text(n["recv"])[:30], b["path"].split("::")[-1]), not bad,
+                 "a path through %s leaves `%s` in place (%s): the emitted declaration keeps a decorator expression whose identifiers are not emitted" % (
+                     b["path"].split("::")[-1], expr_text(n["recv"])[:40], ", ".join(kd for kd, _ in bad[:2])), where(n))
+    R.floor("C10-e decorator strips", n_dc, 6)
+
+    # ---------------- C10-g: which expressions may stay as they are ----------------
+    # a super class / default-export expression is left in the output only if it is a
+    # pure identifier chain; every part of the chain is inspected
+    ie = F.body("fast_check::transform::is_expr_ident_or_member_idents")
+    self_calls = [n for n in ie["_nodes"] if n.get("k") == "Call" and (n.get("fn") or "").endswith("is_expr_ident_or_member_idents")]
+    mm = [n for n in ie["_nodes"] if n["k"] == "Match"]
+    top = [m for m in mm if tyc(F, m["scrut"], "swc_ecma_ast::Expr") or tyc(F, m["scrut"], "::Expr")]
+    ok_top = False
+    if top:
+        for arm in top[0]["arms"]:
+            v, c = pat_variants(arm["pat"])
+            names = {x.split("::")[-1] for x in v}
+            if c and not v:
+                ok_top = peel(arm["body"]).get("v") is False
+    R.ob("C10-g", "anything that is not an identifier or member chain is rejected", bool(top) and ok_top, "the catch-all of is_expr_ident_or_member_idents no longer answers false", ie["file"])
+    # obj of a member expression is inspected recursively
+    obj_rec = [c for c in self_calls if any(x.get("k") == "Field" and x["field"] == "obj" for x in walk(c["args"][0]))]
+    R.ob("C10-g", "the object of a member expression is inspected", len(obj_rec) == 1, "no recursive inspection of `n.obj`", ie["file"])
+    # the property: Ident ok, PrivateName not, Computed only if its expression is itself a chain
+    table = {}
+    for m in mm:
+        if not tyc(F, m["scrut"], "MemberProp"):
+            continue
+        ca = False
+        for arm in m["arms"]:
+            v, c = pat_variants(arm["pat"])
+            ca = ca or c
+            b_ = peel(arm["body"])
+            for x in v:
+                table[x.split("::")[-1]] = b_.get("v") if b_.get("k") == "Lit" else ("rec" if (b_ in self_calls or any(sc is b_ for sc in self_calls)) and any(y.get("k") == "Field" and y["field"] == "expr" for y in walk(b_)) else "?")
+        table["_catch_all"] = ca
+    R.ob("C10-g", "a computed member key is inspected recursively, a private name is rejected", table.get("Ident") is True and table.get("PrivateName") is False and table.get("Computed") == "rec" and table.get("_catch_all") is False,
+         "is_expr_ident_or_member_idents treats member properties as %s: an arbitrary expression inside `obj[...]` (a call, an assignment) would be left in the emitted extends clause / default export instead of being diagnosed" % table, ie["file"])
+    # and its result (for the object and the property) must both hold
+    both = [n for n in ie["_nodes"] if n.get("k") == "Binary" and n["op"] == "&&" and any(is_within(c, n) for c in obj_rec)]
+    R.ob("C10-g", "object and property of a member expression must both qualify", len(both) >= 1 and all(any(tyc(F, m["scrut"], "MemberProp") and is_within(m, b_) for m in mm) for b_ in both), "the member arm no longer requires both parts", ie["file"])
+    sc = [n for n in F.all_nodes() if n.get("k") == "Call" and (n.get("fn") or "").endswith("is_expr_ident_or_member_idents") and n["_top"] is not ie]
+    R.floor("C10-g users of the identifier-chain test", len(sc), 2)
+
     # return-statement analysis: the whole analysis is only aborted once the verdict is final (Multiple)
     n_brk = 0
     for b in F.bodies:
